@@ -92,6 +92,14 @@
 //
 // On any construct outside the subset the tool prints a message, exits with status 2 and
 // overwrites <outfile> with a stub whose elaboration fails, so that no stale translation survives.
+//
+// # Round 3
+//
+// round3.go extends the subset for the sequential reader (`DataReader.next`, `zeroUntilEnd`, `endOfLog`,
+// `Truncate`): assigned / written receiver fields, receiver fields behind one more pointer, bool and
+// []byte receiver fields, `range` loops over bytes, calls of translated functions with loops (in `if`
+// conditions), join points, bool / nil-able pointer results, `x = append(x, e...)`; the hooks in this file
+// are marked `(round 3)`.  See NOTES.md, "Round 3".
 package main
 
 import (
@@ -3159,7 +3167,7 @@ func main() {
 	sb.WriteString("/- GENERATED by harness/cmd/trans from the Go sources on every run -- do not edit.\n")
 	sb.WriteString("   Mechanical translation of whitelisted Go functions; see harness/cmd/trans/main.go for the\n")
 	sb.WriteString("   Go subset, the effect / primitive tables and the integer semantics.  The equalities with the\n")
-	sb.WriteString("   hand-written model are proved in XixiKV/Proofs/TransEq.lean and TransEq2.lean. -/\n")
+	sb.WriteString("   hand-written model are proved in XixiKV/Proofs/TransEq.lean, TransEq2.lean and TransEq3.lean. -/\n")
 	sb.WriteString("namespace XixiKV.Generated.Trans\n\n")
 	sb.WriteString("set_option linter.unusedVariables false -- (`fun st => some true` after a loop whose state is not used again)\n\n")
 	sb.WriteString(prelude)
